@@ -16,7 +16,8 @@ struct CallEnv {
 	uint64_t subseed = 1;
 	int reply_delay_ms = 0;
 	size_t chunk = 0;           // bytes per delivery step (0 = everything at once)
-	int fault = 0;              // 0 none, 1 close after fault_at reply bytes, 2 reset after fault_at reply bytes, 3 no reply at all
+	int fault = 0;              // 0 none, 1 close after fault_at reply bytes, 2 reset after fault_at reply bytes, 3 no reply at all,
+	                            // 4 the peer accepts the connection but never reads (TCP; the send buffer holds 40 bytes)
 	size_t fault_at = 0;
 	long http_code = 200;
 	int tamper_bit = -1;        // >= 0: flip this bit of the reply (C06 sweep)
@@ -51,8 +52,11 @@ public:
 	void setup(int ver, int alg, size_t keylen, size_t loginlen, bool aggr_http, bool ext_http);
 	void install_hooks();
 	void attach(KSI_CTX *ctx);              // KSI_CTX_setAggregator / setExtender / publications URL
-	void arm(const CallEnv &e) { env = e; env.armed = true; progress_ = 0; replied_ = false; fault_fired = false; }
-	void disarm() { env = CallEnv(); }
+	void arm(const CallEnv &e) {
+		env = e; env.armed = true; progress_ = 0; replied_ = false; fault_fired = false;
+		if (e.fault == 4) for (int ep : {aggr_ep, ext_ep}) if (ep >= 0) sim::N.eps[(size_t)ep].sndbuf_cap = 40;
+	}
+	void disarm() { for (int ep : {aggr_ep, ext_ep}) if (ep >= 0 && (size_t)ep < sim::N.eps.size()) sim::N.eps[(size_t)ep].sndbuf_cap = (size_t)1 << 22; env = CallEnv(); }
 	// a long-lived context: n sign and n extend requests that the servers answer with an error status (request ids above 255
 	// are no longer the context's shared small-integer objects)
 	void warm_up(KSI_CTX *ctx, int n);
